@@ -165,6 +165,9 @@ func execute(c Case, plan string) (*run, *pt.Failure) {
 	ref := atenv.RunBranch(context.Background(), env.Bare, c.Branch.Mode, c.Branch.Via, false, texts(r.names, c.Branch))
 	r.expected = env.Srv.Snapshot(atenv.Schema, r.names...)
 	refFailed := ref.Failed()
+	if os.Getenv("VERIF_DEBUG") != "" {
+		fmt.Printf("DEBUG reference run: %+v\n%s\n", ref, atenv.Tail(env.Srv.Journal(), 12))
+	}
 	env.DropTables(r.names)
 	if fl := create(); fl != nil {
 		return nil, fl
